@@ -980,6 +980,7 @@ int main(int argc, char** argv) {
         std::string out = dispatch(kind, a);
         arm(0);
         std::cout << out << "\n";
+        if (kind == "gfqx" || kind == "gfqxchk") std::cout.flush();       // these two are used in a dialogue (see checks/C20.py)
     }
     return 0;
 }
